@@ -234,6 +234,16 @@ PairsOK(T, a, body) ==
      /\ (body[i].t \in {"W", "F"}) => i > 2 /\ body[i - 1].t = "D"
      /\ body[i].t = "B" => i > 1 /\ body[i - 1].t \in {"D", "W", "F", "B"}
 
+\* C18 inside a transfer: the pairs come grouped by the column of the partitioning side (the automatic choice or the
+\* explicit one), column groups in ascending order; the column is read off the emitted positions
+SideColumnsAscend(T, a, body) ==
+  LET side == TransferSide(T, a)
+      k    == IF side = "source" THEN a.src ELSE a.dst
+      g    == T.lw[k].g
+      idx  == SelectSeq([i \in 1..Len(body) |-> i], LAMBDA i : body[i].t = (IF side = "source" THEN "A" ELSE "D"))
+      col(i) == RealWell(g, CavOfPos(T.dev, g, body[i].pos))[2]
+  IN \A j \in 1..(Len(idx) - 1) : col(idx[j]) <= col(idx[j + 1])
+
 PairStarts(body) == {i \in 1..Len(body) : body[i].t = "A" /\ i + 1 <= Len(body) /\ body[i + 1].t = "D"}
 
 \* C06 + C07 (ii): flows and step counts per (source position, destination position)
